@@ -9,7 +9,8 @@ CONFIG = {
     'rule': 'histories of 2-4 goroutines x 1-4 ops over /d /d/x /d/y /f /g on one MemMapFs after a short sequential setup; families: '
             'excl-create, create-race, mkdir, mkdir-remove, removeall, rename, torn-read, handle-io, create-vs-io, unrelated, '
             'metadata, random (whole op mix, private handles); 86 fixed window configurations (Readdirnames on an open directory || Rename of a child, '
-            'OpenFile with O_TRUNC/O_APPEND || Create, Write, Chtimes, Rename, Remove, Chmod on the same name), every schedule, in both tiers. A Stat is recorded as lookup + one call per FileInfo accessor (the '
+            'OpenFile with O_TRUNC/O_APPEND || Create, Write, Chtimes, Rename, Remove, Chmod on the same name), every schedule, in both tiers; 3 real-preemption window programs in the stress phase of both tiers (Rename of a directory with 200 children || listings '
+            'through handles opened before; Rename of an entry between two directories || listing of the old and then of the new parent; 150-2500 rounds). A Stat is recorded as lookup + one call per FileInfo accessor (the '
             'FileInfo is a live view). stress: real scheduler, start barrier, jitter, every program repeated, distinct histories '
             '(stamps replaced by ranks) emitted once; dfs/rand: second binary built from an instrumented copy of memmap.go and '
             'mem/file.go (lock operations = yield points of a cooperative scheduler), schedules enumerated depth-first for 2-3 '
